@@ -2,6 +2,7 @@
 
 import ast
 import copy
+from typing import Collection
 
 from pyrefact import constants, core, processing
 
@@ -23,6 +24,34 @@ def _can_be_evaluated_safe(node: ast.AST) -> bool:
     return True
 
 
+def _rebound_names(root: ast.AST, names: Collection[str]) -> Collection[str]:
+    """The names (of builtins) that are given another meaning anywhere in root
+
+    The rules recognise calls of builtins by name, and write such calls."""
+    names = tuple(names)
+    rebinding = (
+        ast.Name(id=names, ctx=(ast.Store, ast.Del)),
+        ast.arg(arg=names),
+        ast.FunctionDef(name=names),
+        ast.AsyncFunctionDef(name=names),
+        ast.ClassDef(name=names),
+        ast.alias(name=names, asname=None),
+        ast.alias(asname=names),
+    )
+    rebound = set()
+    for node in core.walk(root, rebinding):
+        if isinstance(node, ast.Name):
+            rebound.add(node.id)
+        elif isinstance(node, ast.arg):
+            rebound.add(node.arg)
+        elif isinstance(node, ast.alias):
+            rebound.add(node.asname or node.name)
+        else:
+            rebound.add(node.name)
+
+    return rebound
+
+
 @processing.fix
 def optimize_contains_types(source: str) -> str:
     """Replace inlined lists with sets.
@@ -37,9 +66,11 @@ def optimize_contains_types(source: str) -> str:
     find = "{{element}} in {{wrapper}}({{collection}})"
     replace = "{{element}} in {{collection}}"
     wrapper_names = ("sorted", "list", "tuple", "set", "iter", "reversed")
-    template = core.compile_template(find, wrapper=ast.Name(id=wrapper_names))
+    wrapper_names = tuple(sorted(set(wrapper_names) - _rebound_names(root, wrapper_names)))
+    if wrapper_names:
+        template = core.compile_template(find, wrapper=ast.Name(id=wrapper_names))
 
-    yield from processing.find_replace(source, template, replace)
+        yield from processing.find_replace(source, template, replace)
 
     sorted_list_tuple_call_template = ast.Call(
         func=ast.Name(id=("sorted", "list", "tuple"), ctx=ast.Load), args=[object], keywords=[]
@@ -72,7 +103,12 @@ def optimize_contains_types(source: str) -> str:
 @processing.fix
 def remove_redundant_iter(source: str) -> str:
     root = core.parse(source)
-    iter_template = ast.Call(func=ast.Name(id=("iter", "list", "tuple")), args=[object])
+    wrapper_names = ("iter", "list", "tuple")
+    wrapper_names = tuple(sorted(set(wrapper_names) - _rebound_names(root, wrapper_names)))
+    if not wrapper_names:
+        return
+
+    iter_template = ast.Call(func=ast.Name(id=wrapper_names), args=[object])
     template = (ast.For(iter=iter_template), ast.comprehension(iter=iter_template))
 
     for node in core.walk(root, template):
@@ -85,16 +121,7 @@ def remove_redundant_chained_calls(source: str) -> str:
 
     # The calls are recognised by name: not when the file gives one of the names another meaning
     builtin_names = ("sorted", "list", "set", "iter", "tuple", "sum", "reversed")
-    rebinding = (
-        ast.Name(id=builtin_names, ctx=(ast.Store, ast.Del)),
-        ast.arg(arg=builtin_names),
-        ast.FunctionDef(name=builtin_names),
-        ast.AsyncFunctionDef(name=builtin_names),
-        ast.ClassDef(name=builtin_names),
-        ast.alias(name=builtin_names, asname=None),
-        ast.alias(asname=builtin_names),
-    )
-    if any(True for _ in core.walk(root, rebinding)):
+    if _rebound_names(root, builtin_names):
         return
 
     # If outer is present, inner is redundant
@@ -194,6 +221,10 @@ def _slice_of(node: ast.Subscript) -> ast.AST:
 @processing.fix
 def replace_sorted_heapq(source: str) -> str:
     root = core.parse(source)
+    # sorted is recognised by name, the other names are written
+    rebound = _rebound_names(root, ("sorted", "min", "max", "list", "reversed"))
+    if "sorted" in rebound:
+        return
 
     heapq_nlargest = core.compile_template("heapq.nlargest")
     heapq_nsmallest = core.compile_template("heapq.nsmallest")
@@ -217,11 +248,15 @@ def replace_sorted_heapq(source: str) -> str:
         keywords = node.value.keywords
         node_slice = _slice_of(node)
         if core.match_template(node_slice, template_first_element):
+            if "min" in rebound:
+                continue
             replacement = ast.Call(
                 func=builtin_min, args=args, keywords=keywords, lineno=node.lineno
             )
             yield node, replacement
         elif core.match_template(node_slice, template_last_element):
+            if "max" in rebound:
+                continue
             replacement = ast.Call(
                 func=builtin_max, args=args, keywords=keywords, lineno=node.lineno
             )
@@ -234,6 +269,8 @@ def replace_sorted_heapq(source: str) -> str:
             replacement = ast.Call(func=func, args=[value] + args, keywords=keywords)
             yield node, replacement
         elif core.match_template(node_slice, template_last_n):
+            if rebound & {"list", "reversed"}:
+                continue
             func = heapq_nlargest
             value = node_slice.lower.operand
             replacement = ast.Call(
